@@ -91,10 +91,22 @@ def is_virtual(nc):
     return type(nc.node) is list or isinstance(nc.node, NodeCoords)
 
 
+def is_name_result(nc):
+    """[name()] yields a virtual node: the key / index itself."""
+    seg = getattr(nc, "path_segment", None)
+    if not seg:
+        return False
+    attrs = seg[1]
+    kw = getattr(attrs, "keyword", None)
+    return kw is not None and str(kw) == "name"
+
+
 def flat_ids(ncs):
     out = []
     for nc in ncs:
-        if isinstance(nc, list):
+        if is_name_result(nc):
+            out.append(("name", str(nc.node)))
+        elif isinstance(nc, list):
             out.append(("v",) + tuple(_leaf_ids(nc)))
         elif is_virtual(nc):
             out.append(("v",) + tuple(_leaf_ids(nc.node)))
